@@ -393,25 +393,33 @@ Definition resolve_range (a : addr) : res (list (list addr)) :=
   end.
 
 (* ------------------------------------------- intersection, union *)
+(* the body of _union_instersection once [other] is an address *)
+Definition ui_core (mn mx : Z -> Z -> Z) (self o : addr) : res aval :=
+  let s1 := a_sheet self in let s2 := a_sheet o in
+  if nonempty s1 && nonempty s2 && negb (str_eqb s1 s2) then Ok (VE VALUE_ERROR)
+  else
+    let min_col := mn (a_col self) (a_col o) in
+    let min_row := mn (a_row self) (a_row o) in
+    let max_col := mx (a_col self + width self) (a_col o + width o) - 1 in
+    let max_row := mx (a_row self + height self) (a_row o + height o) - 1 in
+    if (max_col <? min_col) || (max_row <? min_row) then Ok (VE NULL_ERROR)
+    else
+      let sh := if nonempty s1 then s1 else s2 in
+      if (max_col =? min_col) && (max_row =? min_row)
+      then a <- mk_cell sh min_col min_row ;; Ok (VA a)
+      else a <- mk_range sh min_col min_row max_col max_row ;; Ok (VA a).
+
 Definition union_intersection (mn mx : Z -> Z -> Z) (self : addr) (other : aval) : res aval :=
   match other with
+  | VA o => ui_core mn mx self o
   | VE e =>
-      (* AddressRange.create(error code) hands the text back; .sheet fails *)
-      if is_error_code e then Raise AttributeError else Raise Unmodelled
-  | VA o =>
-      let s1 := a_sheet self in let s2 := a_sheet o in
-      if nonempty s1 && nonempty s2 && negb (str_eqb s1 s2) then Ok (VE VALUE_ERROR)
-      else
-        let min_col := mn (a_col self) (a_col o) in
-        let min_row := mn (a_row self) (a_row o) in
-        let max_col := mx (a_col self + width self) (a_col o + width o) - 1 in
-        let max_row := mx (a_row self + height self) (a_row o + height o) - 1 in
-        if (max_col <? min_col) || (max_row <? min_row) then Ok (VE NULL_ERROR)
-        else
-          let sh := if nonempty s1 then s1 else s2 in
-          if (max_col =? min_col) && (max_row =? min_row)
-          then a <- mk_cell sh min_col min_row ;; Ok (VA a)
-          else a <- mk_range sh min_col min_row max_col max_row ;; Ok (VA a)
+      (* not an address: other = AddressRange.create(other); an error code comes
+         back as text and is returned as is (the #NULL! of an empty intersection) *)
+      v <- create e [] None ;;
+      match v with
+      | VE e' => Ok (VE e')
+      | VA o => ui_core mn mx self o
+      end
   end.
 
 (* x ** y and x & y as Python dispatches them (__pow__/__rpow__, __and__/__rand__) *)
